@@ -85,14 +85,29 @@ type c02Model struct {
 	pParent, pID types.Object // objects passed as (parent, id) to both fetches
 }
 
+// c02Transfer describes a function that copies a node and its subtree from
+// one instance to the other.  Three shapes:
+//   - direct: sends over a typed field and lists children over a typed field;
+//   - core: destination and source connection are parameters (destP, srcP);
+//   - wrapper / call of a core: dest and src are the sides of the connection
+//     arguments at that call (via).
 type c02Transfer struct {
 	f        *kit.Func
 	node     *types.Var
+	nodeIdx  int // position of the node among the parameters
 	send     *ast.CallExpr
 	list     *ast.CallExpr
+	loop     *ast.RangeStmt
+	listVar  types.Object
 	dest     string
 	src      string
 	selfCall *ast.CallExpr
+
+	destP, srcP       *types.Var // core
+	destIdx, srcIdx   int
+	core              *c02Transfer  // wrapper or dynamic call: the core it calls
+	via               *ast.CallExpr // wrapper: its call of the core
+	problem, problemQ string        // core/direct shape: violation text / undecided text
 }
 
 func c02IsConn(t types.Type) bool {
@@ -806,25 +821,49 @@ func (sg *c02SendSig) kind() string {
 // ---------------------------------------------------------------------------
 // R3 transfer functions
 
+func c02ParamIndex(f *kit.Func, v *types.Var) int {
+	for i, p := range f.Params() {
+		if p == v {
+			return i
+		}
+	}
+	return -1
+}
+
+func (m *c02Model) connParam(f *kit.Func, e ast.Expr) *types.Var {
+	o := kit.ObjOf(m.info, e)
+	for _, p := range f.Params() {
+		if types.Object(p) == o && c02IsConn(p.Type()) {
+			return p
+		}
+	}
+	return nil
+}
+
+func (m *c02Model) singleNodeParam(f *kit.Func) *types.Var {
+	var node *types.Var
+	for _, p := range f.Params() {
+		if c02IsNodeEdge(p.Type()) {
+			if node != nil {
+				return nil
+			}
+			node = p
+		}
+	}
+	return node
+}
+
 func (m *c02Model) findTransfers() {
+	// direct transfers and parametric cores
 	for _, f := range m.funcs {
 		if f.Decl == nil {
 			continue
 		}
-		var node *types.Var
-		for _, p := range f.Params() {
-			if c02IsNodeEdge(p.Type()) {
-				if node != nil {
-					node = nil
-					break
-				}
-				node = p
-			}
-		}
+		node := m.singleNodeParam(f)
 		if node == nil {
 			continue
 		}
-		t := &c02Transfer{f: f, node: node}
+		t := &c02Transfer{f: f, node: node, nodeIdx: c02ParamIndex(f, node), destIdx: -1, srcIdx: -1}
 		for _, call := range f.AllCalls(false) {
 			if fn := m.clientFn(m.info, call); c02ConnFirst(fn) && m.sendSig(m.info, call) == nil {
 				ps := fn.Type().(*types.Signature).Params()
@@ -838,23 +877,148 @@ func (m *c02Model) findTransfers() {
 				t.selfCall = call
 			}
 		}
-		if t.send != nil && t.selfCall != nil {
-			m.transfers = append(m.transfers, t)
+		if t.send == nil || t.selfCall == nil {
+			continue
+		}
+		m.analyseTransfer(t)
+		m.transfers = append(m.transfers, t)
+	}
+	// wrappers: methods that hand their node to a core with typed connections
+	for _, f := range m.funcs {
+		if f.Decl == nil {
+			continue
+		}
+		node := m.singleNodeParam(f)
+		if node == nil {
+			continue
+		}
+		known := false
+		for _, t := range m.transfers {
+			if t.f == f {
+				known = true
+			}
+		}
+		if known {
+			continue
+		}
+		var w *c02Transfer
+		n := 0
+		for _, call := range f.AllCalls(false) {
+			cf := f.CalleeFunc(call)
+			for _, core := range m.transfers {
+				if core.f == cf && core.destP != nil && core.nodeIdx < len(call.Args) && kit.ObjOf(m.info, call.Args[core.nodeIdx]) == types.Object(node) {
+					n++
+					w = m.coreCall(f, core, call)
+					w.f, w.node, w.nodeIdx, w.via = f, node, c02ParamIndex(f, node), call
+				}
+			}
+		}
+		if n == 1 {
+			m.transfers = append(m.transfers, w)
 		}
 	}
 }
 
+// coreCall describes one call of a parametric core.
+func (m *c02Model) coreCall(f *kit.Func, core *c02Transfer, call *ast.CallExpr) *c02Transfer {
+	d := &c02Transfer{f: core.f, node: core.node, nodeIdx: core.nodeIdx, core: core, via: call, destIdx: -1, srcIdx: -1}
+	if core.destIdx >= 0 && core.destIdx < len(call.Args) {
+		d.dest = m.connSide(call.Args[core.destIdx])
+	}
+	if core.srcIdx >= 0 && core.srcIdx < len(call.Args) {
+		d.src = m.connSide(call.Args[core.srcIdx])
+	}
+	return d
+}
+
+// analyseTransfer finds the child listing the recursion runs over and types
+// destination and source (sides of typed fields, or connection parameters).
+func (m *c02Model) analyseTransfer(t *c02Transfer) {
+	f := t.f
+	t.dest = m.connSide(t.send.Args[0])
+	if t.dest == "" {
+		if p := m.connParam(f, t.send.Args[0]); p != nil {
+			t.destP, t.destIdx = p, c02ParamIndex(f, p)
+		}
+	}
+	// range loop or canonical counting loop over the listing
+	rs := f.EnclosingLoop(t.selfCall)
+	if rs == nil {
+		t.problemQ = "the recursive call is not inside a loop over a slice"
+		return
+	}
+	t.loop = rs
+	t.listVar = kit.ObjOf(m.info, rs.X)
+	var list *ast.CallExpr
+	if t.listVar != nil {
+		list = m.assignedCall(f, t.listVar)
+	}
+	if list == nil || !m.isFetch(f, list) {
+		t.problemQ = "the recursion does not range over the result of one node fetch"
+		return
+	}
+	t.list = list
+	t.src = m.connSide(list.Args[0])
+	if t.src == "" {
+		if p := m.connParam(f, list.Args[0]); p != nil {
+			t.srcP, t.srcIdx = p, c02ParamIndex(f, p)
+		}
+	}
+	idc, idConst := kit.ConstString(m.info, list.Args[m.aID])
+	switch {
+	case !m.nodeField(list.Args[m.aParent], t.node, m.idF) || !idConst || idc == "":
+		t.problemQ = "the listing `" + f.Str(list) + "` does not list the children of the node parameter"
+	case t.nodeIdx >= len(t.selfCall.Args) || !m.passesListed(t.selfCall, rs, t.listVar, t.nodeIdx):
+		t.problemQ = "the recursive call does not pass the listed child"
+	case (t.destP != nil) != (t.srcP != nil):
+		t.problemQ = "one of destination and source is a connection parameter, the other is not"
+	case t.destP == nil && (t.dest == "" || t.src == ""):
+		t.problemQ = "connection of the send (`" + f.Str(t.send.Args[0]) + "`) or of the listing (`" + f.Str(list.Args[0]) + "`) is neither a typed field nor a connection parameter"
+	case t.destP != nil && t.destP == t.srcP:
+		t.problem = "the node is sent over the connection parameter `" + t.destP.Name() + "` and its children are listed over the same connection (`" + f.Str(list) + "`): a node that exists only on the other instance has no children there yet, so a subtree of depth k needs k sync periods to arrive"
+	case t.destP != nil:
+		// the recursion keeps the roles of the two connections
+		da, sa := kit.ObjOf(m.info, t.selfCall.Args[t.destIdx]), kit.ObjOf(m.info, t.selfCall.Args[t.srcIdx])
+		switch {
+		case da == types.Object(t.destP) && sa == types.Object(t.srcP):
+		case da == types.Object(t.srcP) && sa == types.Object(t.destP):
+			t.problem = "the recursive call `" + f.Str(t.selfCall) + "` swaps destination and source: the children are sent back to the instance they were read from"
+		default:
+			t.problemQ = "the recursive call `" + f.Str(t.selfCall) + "` does not pass destination and source on unchanged"
+		}
+	}
+}
+
+// transferOf describes the transfer a call performs (nil: none).  Calls of a
+// parametric core are typed from their connection arguments.
 func (m *c02Model) transferOf(f *kit.Func, call *ast.CallExpr) *c02Transfer {
 	cf := f.CalleeFunc(call)
 	if cf == nil {
 		return nil
 	}
 	for _, t := range m.transfers {
-		if t.f == cf {
-			return t
+		if t.f != cf {
+			continue
 		}
+		if t.destP != nil {
+			if cf == f.Root() {
+				return t // the core's own recursion
+			}
+			return m.coreCall(f, t, call)
+		}
+		return t
 	}
 	return nil
+}
+
+// isWrapperVia: the call by which a wrapper delegates to its core.
+func (m *c02Model) isWrapperVia(call *ast.CallExpr) bool {
+	for _, t := range m.transfers {
+		if t.via == call {
+			return true
+		}
+	}
+	return false
 }
 
 // assignedCall finds the unique call a local variable is assigned from
@@ -887,11 +1051,11 @@ func (m *c02Model) nodeField(e ast.Expr, node types.Object, fld *types.Var) bool
 }
 
 // passesListed: the self call hands over the range value, or list[key].
-func (m *c02Model) passesListed(call *ast.CallExpr, rs *ast.RangeStmt, list types.Object) bool {
-	if len(call.Args) < 1 {
+func (m *c02Model) passesListed(call *ast.CallExpr, rs *ast.RangeStmt, list types.Object, idx int) bool {
+	if idx < 0 || len(call.Args) <= idx {
 		return false
 	}
-	a := ast.Unparen(call.Args[0])
+	a := ast.Unparen(call.Args[idx])
 	if kit.LoopElem(m.info, rs, a) {
 		return true
 	}
@@ -905,35 +1069,29 @@ func (m *c02Model) checkTransfers(r3 *kit.Rule) {
 	for _, t := range m.transfers {
 		f := t.f
 		m.c.Analysed(f)
-		t.dest = m.connSide(t.send.Args[0])
+		if t.via != nil {
+			// wrapper of a parametric core: the sides are fixed here
+			o := r3.Ob(f, t.via, "source and destination of the transfer", "the connection the node is sent over and the connection its children are listed over belong to different instances")
+			switch {
+			case t.dest == "" || t.src == "":
+				o.Undecided("a connection argument of `%s` is not a typed field", f.Str(t.via))
+			case t.dest == t.src:
+				o.Violation("`%s` sends the node to %s and lists its children on %s as well: a node that exists only on the other instance has no children here yet, so a subtree of depth k needs k sync periods to arrive", f.Str(t.via), t.dest, t.src)
+			default:
+				o.OK("sent to %s, children listed on %s", t.dest, t.src)
+			}
+			continue
+		}
 		o := r3.Ob(f, t.send, "child listing of a transferred node", "the children of the node being sent are listed on the instance the node comes from, not on the one it is sent to")
-		// range loop or canonical counting loop over the listing
-		rs := f.EnclosingLoop(t.selfCall)
-		if rs == nil {
-			o.Undecided("the recursive call is not inside a loop over a slice")
-			continue
-		}
-		lv := kit.ObjOf(m.info, rs.X)
-		var list *ast.CallExpr
-		if lv != nil {
-			list = m.assignedCall(f, lv)
-		}
-		if list == nil || !m.isFetch(f, list) {
-			o.Undecided("the recursion does not range over the result of one node fetch")
-			continue
-		}
-		t.list = list
-		t.src = m.connSide(list.Args[0])
-		idc, idConst := kit.ConstString(m.info, list.Args[m.aID])
 		switch {
-		case t.dest == "" || t.src == "":
-			o.Undecided("connection of the send (`%s`) or of the listing (`%s`) is not a typed field", f.Str(t.send.Args[0]), f.Str(list.Args[0]))
-		case !m.nodeField(list.Args[m.aParent], t.node, m.idF) || !idConst || idc == "":
-			o.Undecided("the listing `%s` does not list the children of the node parameter", f.Str(list))
-		case !m.passesListed(t.selfCall, rs, lv):
-			o.Undecided("the recursive call does not pass the listed child")
+		case t.problem != "":
+			o.Violation("%s", t.problem)
+		case t.problemQ != "":
+			o.Undecided("%s", t.problemQ)
+		case t.destP != nil:
+			o.OK("sent over parameter `%s`, children listed over parameter `%s`, roles kept by the recursion", t.destP.Name(), t.srcP.Name())
 		case t.src == t.dest:
-			o.Violation("the node is sent to %s and its children are listed on %s as well (`%s`): a node that exists only on the other instance has no children here yet, so a subtree of depth k needs k sync periods to arrive", t.dest, t.src, f.Str(list))
+			o.Violation("the node is sent to %s and its children are listed on %s as well (`%s`): a node that exists only on the other instance has no children here yet, so a subtree of depth k needs k sync periods to arrive", t.dest, t.src, f.Str(t.list))
 		default:
 			o.OK("sent to %s, children listed on %s", t.dest, t.src)
 		}
@@ -947,7 +1105,7 @@ func (m *c02Model) checkTransferCalls(r3 *kit.Rule) {
 	for _, f := range m.funcs {
 		var sites []*ast.CallExpr
 		for _, call := range f.AllCalls(false) {
-			if t := m.transferOf(f, call); t != nil && t.f != f {
+			if t := m.transferOf(f, call); t != nil && t.f != f.Root() && !m.isWrapperVia(call) {
 				sites = append(sites, call)
 			}
 		}
@@ -956,8 +1114,12 @@ func (m *c02Model) checkTransferCalls(r3 *kit.Rule) {
 		}
 		c.Analysed(f)
 		origins := map[*ast.CallExpr]map[string]bool{}
+		nodeArg := map[*ast.CallExpr]ast.Expr{}
 		for _, s := range sites {
 			origins[s] = map[string]bool{}
+			if t := m.transferOf(f, s); t.nodeIdx >= 0 && t.nodeIdx < len(s.Args) {
+				nodeArg[s] = s.Args[t.nodeIdx]
+			}
 		}
 		es := func(s kit.S, e ast.Expr) string {
 			e = ast.Unparen(e)
@@ -977,8 +1139,8 @@ func (m *c02Model) checkTransferCalls(r3 *kit.Rule) {
 		// condition is nondeterministic
 		onNode := func(n ast.Node, s kit.S) []kit.S {
 			for _, call := range kit.CallsIn(n) {
-				if set, ok := origins[call]; ok && len(call.Args) >= 1 {
-					sd := es(s, call.Args[0])
+				if set, ok := origins[call]; ok && nodeArg[call] != nil {
+					sd := es(s, nodeArg[call])
 					if sd == "" {
 						sd = "?"
 					}
@@ -1061,8 +1223,8 @@ func (m *c02Model) checkTransferCalls(r3 *kit.Rule) {
 		for _, call := range sites {
 			t := m.transferOf(f, call)
 			arg := "?"
-			if len(call.Args) > 0 {
-				arg = f.Str(call.Args[0])
+			if nodeArg[call] != nil {
+				arg = f.Str(nodeArg[call])
 			}
 			o := r3.Ob(f.Root(), call, "origin of `"+arg+"` handed to the transfer towards "+t.dest,
 				"the node handed to a transfer function was fetched from the instance the transfer reads from, i.e. it is sent to the other instance")
@@ -1087,6 +1249,57 @@ func (m *c02Model) checkTransferCalls(r3 *kit.Rule) {
 			}
 		}
 	}
+}
+
+// hashOwner names the node variable whose hash an expression denotes:
+// `<node>.Hash`, or a local that is defined from `<node>.Hash` and afterwards
+// only adjusted by compound assignments (the root's edge points are backed
+// out of both hashes alike).
+func (m *c02Model) hashOwner(f *kit.Func, e ast.Expr) types.Object {
+	e = ast.Unparen(e)
+	if sel, ok := e.(*ast.SelectorExpr); ok {
+		if kit.ObjOf(m.info, sel) == types.Object(m.hashF) {
+			if o := kit.ObjOf(m.info, sel.X); o != nil && c02IsNodeEdge(o.Type()) {
+				return o
+			}
+		}
+		return nil
+	}
+	id, ok := e.(*ast.Ident)
+	if !ok {
+		return nil
+	}
+	v := kit.ObjOf(m.info, id)
+	if v == nil {
+		return nil
+	}
+	var owner types.Object
+	plain := 0
+	ast.Inspect(f.Body, func(x ast.Node) bool {
+		as, ok := x.(*ast.AssignStmt)
+		if !ok {
+			return true
+		}
+		for i, l := range as.Lhs {
+			if kit.ObjOf(m.info, l) != v {
+				continue
+			}
+			if as.Tok != token.ASSIGN && as.Tok != token.DEFINE {
+				continue // hashUp ^= …
+			}
+			plain++
+			if len(as.Lhs) == len(as.Rhs) {
+				if sel, ok := ast.Unparen(as.Rhs[i]).(*ast.SelectorExpr); ok && kit.ObjOf(m.info, sel) == types.Object(m.hashF) {
+					owner = kit.ObjOf(m.info, sel.X)
+				}
+			}
+		}
+		return true
+	})
+	if plain == 1 && owner != nil && c02IsNodeEdge(owner.Type()) {
+		return owner
+	}
+	return nil
 }
 
 // ---------------------------------------------------------------------------
@@ -1168,12 +1381,10 @@ func (m *c02Model) findCompare() {
 					if !ok || (be.Op != token.EQL && be.Op != token.NEQ) {
 						return true
 					}
-					sx, ok1 := ast.Unparen(be.X).(*ast.SelectorExpr)
-					sy, ok2 := ast.Unparen(be.Y).(*ast.SelectorExpr)
-					if !ok1 || !ok2 || kit.ObjOf(m.info, sx) != types.Object(m.hashF) || kit.ObjOf(m.info, sy) != types.Object(m.hashF) {
+					ox, oy := m.hashOwner(f, be.X), m.hashOwner(f, be.Y)
+					if ox == nil || oy == nil {
 						return true
 					}
-					ox, oy := kit.ObjOf(m.info, sx.X), kit.ObjOf(m.info, sy.X)
 					if us[ox] && ls[oy] {
 						ox, oy = oy, ox
 					}
